@@ -49,7 +49,8 @@ fn do_input_one_var<S: InterpreterTrait>(
         TypeQualifier::BangSingle => Variant::from(parse_single_input(raw_input)?),
         TypeQualifier::DollarString => Variant::from(raw_input),
         TypeQualifier::PercentInteger => Variant::from(parse_int_input(raw_input)?),
-        _ => todo!("INPUT type {} not supported yet", q),
+        TypeQualifier::HashDouble => Variant::from(parse_double_input(raw_input)?),
+        TypeQualifier::AmpersandLong => Variant::from(parse_long_input(raw_input)?),
     };
     interpreter.context_mut()[index] = new_value;
     Ok(())
@@ -82,6 +83,24 @@ fn parse_single_input(s: String) -> Result<f32, RuntimeError> {
     } else {
         s.parse::<f32>()
             .map_err(|e| RuntimeError::Other(format!("Could not parse {} as float: {}", s, e)))
+    }
+}
+
+fn parse_double_input(s: String) -> Result<f64, RuntimeError> {
+    if s.is_empty() {
+        Ok(0.0)
+    } else {
+        s.parse::<f64>()
+            .map_err(|e| RuntimeError::Other(format!("Could not parse {} as double: {}", s, e)))
+    }
+}
+
+fn parse_long_input(s: String) -> Result<i64, RuntimeError> {
+    if s.is_empty() {
+        Ok(0)
+    } else {
+        s.parse::<i64>()
+            .map_err(|e| RuntimeError::Other(format!("Could not parse {} as long: {}", s, e)))
     }
 }
 
